@@ -12,7 +12,7 @@ enabled extensions — table rows, `[^1]` and `[^1]: …`, `*[A]: b`, `!!! note`
 fences — and none of it is interpreted.  Fenced blocks with extensions are in `Props/C03Fenced.lean`.
 
 Only property statements live here; the vocabulary is in `Spec/CodeLaw.lean`, the helper lemmas in
-`Lemmas/CodeX.lean`, `Lemmas/CodeXTree.lean`.
+`Lemmas/CodeX.lean`, `Lemmas/CodeXTree.lean`, `Lemmas/CodeXSpan.lean`.
 
 Why nothing leaks (what the proofs follow):
 * block parser: `CodeBlockProcessor` (80) is asked before table (75), deflist (25), footnote (17), abbr (16); of the
@@ -32,9 +32,10 @@ Two hypotheses beyond those of `Props/C03.lean`:
   literal there too: tested).
 
 Part 1.  `C03X_block_top`, `C03X_block_extensions_inert`.
+Part 2.  `C03X_span_top`, `C03X_span_extensions_inert`; what `attr_list` does do next to a span: `C03X_span_attr_list_boundary`.
 -/
 import MdVerif.Props.C03
-import MdVerif.Lemmas.CodeXTree
+import MdVerif.Lemmas.CodeXSpan
 
 namespace MdVerif.CodeX
 open Py Block CodeLaw Pipeline PipelineX
@@ -119,6 +120,65 @@ theorem C03X_admNonAscii_excluded :
     convertX { admonition := true } {} (codeSource 4 ["!!! é".toList] []) = .ood ∧
     convertX { tables := true, footnotes := true, attrList := true } {} (codeSource 4 ["!!! é".toList] []) =
       .ok "<pre><code>!!! é\n</code></pre>".toList := by
+  decide +kernel
+
+/-! ### Part 2: a code span, end to end, any extensions -/
+
+/-- **C03 for code spans with extensions, end to end.**  Enable any subset `x` of the eleven modelled extensions.
+    The document is one line of the domain of `C03_span_top`: text `a` (ASCII letters and spaces, not starting with a
+    space), a fence of `k + 1` backticks, a body (`isCodeChar` characters, closed references, `spanBodyOk`), the same
+    fence, text `b` (letters and spaces).  `Markdown.convert` returns exactly what the core pipeline returns:
+    `<p>a<code>` + `code_escape(body.strip())` + `</code>b</p>` — the body trimmed at both ends, `&`, `<`, `>`
+    escaped, and nothing else happens to it, even when it is full of the syntax of the enabled extensions: `[^1]`,
+    `[[w]]`, `*[A]: x`, `| a |`, `{: #i }`, `[TOC]`, `!!! note`.  The footnote, wikilink and nl2br patterns never see
+    the body (it sits in the stash as an `AtomicString` while they run on the words and the placeholder); `abbr` skips
+    it; `attr_list` reads the tail `b` and the text `a`, never the text of `<code>`; a line that starts with three
+    backticks is no fenced block (the fence pattern needs a second line).  Any tab length > 0, any fence length,
+    both output formats. -/
+theorem C03X_span_top (x : Exts) (tab : Nat) (htab : 0 < tab) (fmt : Ser.Fmt) (k : Nat) (a body b : Str)
+    (ha : isSpanContext a = true) (hb : b.all isWordSp = true)
+    (h1 : body.all isCodeChar = true) (h2 : refsClosed body = true) (h3 : spanBodyOk (k + 1) body = true)
+    (hadm : (x.admonition && admNonAscii (spanSource (k + 1) a body b ++ ['\n', '\n'])) = false) :
+    convertX x { tab := tab, fmt := fmt } (spanSource (k + 1) a body b) =
+      .ok ("<p>".toList ++ a ++ "<code>".toList ++ Code.codeEscape (strip body) ++ "</code>".toList ++ b ++
+        "</p>".toList) :=
+  convertX_span x tab htab fmt k a body b ⟨ha, hb, h1, h2, h3⟩ hadm
+
+-- the hypotheses on concrete inputs: every extension on; a body full of extension syntax; a line that starts with
+-- a fence of three backticks
+example : 0 < 4 ∧ isSpanContext "see HTML ".toList = true ∧ " here".toList.all isWordSp = true ∧
+    " [^1] [[w]] *[A]: x | a | {: #i } [TOC] !!! note & ".toList.all isCodeChar = true ∧
+    refsClosed " [^1] [[w]] *[A]: x | a | {: #i } [TOC] !!! note & ".toList = true ∧
+    spanBodyOk 1 " [^1] [[w]] *[A]: x | a | {: #i } [TOC] !!! note & ".toList = true ∧
+    (everyExt.admonition && admNonAscii (spanSource 1 "see HTML ".toList
+      " [^1] [[w]] *[A]: x | a | {: #i } [TOC] !!! note & ".toList " here".toList ++ ['\n', '\n'])) = false := by
+  decide +kernel
+example : isSpanContext [] = true ∧ " b".toList.all isWordSp = true ∧ "x `` y".toList.all isCodeChar = true ∧
+    refsClosed "x `` y".toList = true ∧ spanBodyOk 3 "x `` y".toList = true ∧
+    spanSource 3 [] "x `` y".toList " b".toList = "```x `` y``` b".toList := by decide
+-- … and what the model computes there with every extension on (by the kernel, not by the theorem)
+example : convertX everyExt {} (spanSource 1 "see HTML ".toList
+      " [^1] [[w]] *[A]: x | a | {: #i } [TOC] !!! note & ".toList " here".toList) =
+    .ok "<p>see HTML <code>[^1] [[w]] *[A]: x | a | {: #i } [TOC] !!! note &amp;</code> here</p>".toList := by
+  decide +kernel
+example : convertX everyExt {} "```x `` y``` b".toList = .ok "<p><code>x `` y</code> b</p>".toList := by decide +kernel
+
+/-- the same as a non-interference statement: on a paragraph with a code span, enabling extensions changes nothing -/
+theorem C03X_span_extensions_inert (x : Exts) (tab : Nat) (htab : 0 < tab) (fmt : Ser.Fmt) (k : Nat) (a body b : Str)
+    (ha : isSpanContext a = true) (hb : b.all isWordSp = true)
+    (h1 : body.all isCodeChar = true) (h2 : refsClosed body = true) (h3 : spanBodyOk (k + 1) body = true)
+    (hadm : (x.admonition && admNonAscii (spanSource (k + 1) a body b ++ ['\n', '\n'])) = false) :
+    convertX x { tab := tab, fmt := fmt } (spanSource (k + 1) a body b) =
+      Pipeline.convert { tab := tab, fmt := fmt } (spanSource (k + 1) a body b) := by
+  rw [C03X_span_top x tab htab fmt k a body b ha hb h1 h2 h3 hadm, ← convertX_core,
+    C03X_span_top {} tab htab fmt k a body b ha hb h1 h2 h3 rfl]
+
+/-- **the boundary of the domain: what `attr_list` does next to a span.**  An attribute list directly AFTER the
+    closing fence (outside the body; `b` would start with `{`, which `isWordSp` excludes) is applied to the `<code>`
+    element — that is the extension's feature; the body is still literal.  The same text INSIDE the body is code. -/
+theorem C03X_span_attr_list_boundary :
+    convertX { attrList := true } {} "a `x`{: #i } b".toList = .ok "<p>a <code id=\"i\">x</code> b</p>".toList ∧
+    convertX { attrList := true } {} "a `x{: #i }` b".toList = .ok "<p>a <code>x{: #i }</code> b</p>".toList := by
   decide +kernel
 
 end MdVerif.CodeX
